@@ -2,7 +2,8 @@
    (C03/Lemmas.v, Section Reassembly) from (1) numeric margins on the score table and (2) the
    geometry of the ideal part-affinity fields (model: C03/IdealPaf.v). *)
 From Coq Require Import List ZArith QArith Qabs Bool Arith Lia Lra Psatz Permutation Relations Reals Qreals.
-From SV Require Import C03.BottomUp C03.Lemmas.
+From SV Require Import C03.BottomUp C03.Lemmas C03.SkelLemmas.
+From SV Require C17.Toposort C17.Lemmas.
 Import ListNotations.
 Open Scope Q_scope.
 
@@ -611,6 +612,7 @@ Definition geo_premise n_animals vis score (mls : Q) sigma eps seg_of pts dirx d
         length (true_pairs (srcs n_animals vis e) (dsts n_animals vis e))
         = Nat.min (length (srcs n_animals vis e)) (length (dsts n_animals vis e)))).
 
+(* any edge listing; proc = the edge types handed to assign_connections_to_instances *)
 Theorem reassembly_from_geometry
     (edges : list (nat * nat)) (n_animals : nat) (vis : nat -> nat -> bool)
     (score : nat -> nat -> nat -> option Q) (mls : Q) (matching : nat -> list (nat * nat))
@@ -620,28 +622,47 @@ Theorem reassembly_from_geometry
      optimal (srcs n_animals vis e) (dsts n_animals vis e) (sck score k) (matching k)) ->
   (forall k e, nth_error edges k = Some e ->
      geo_premise n_animals vis score mls sigma eps seg_of pts dirx diry pen k e) ->
-  forall output : list instance,
+  forall (proc : nat -> bool) (output : list instance),
   (forall I, In I output ->
-     exists p, member p I /\ (forall q, member q I <-> conn edges score mls matching p q) /\
+     exists p, member p I /\ (forall q, member q I <-> conn edges score mls matching proc p q) /\
                (exists q, q <> p /\ member q I)) ->
-  (forall p q, adj edges score mls matching p q -> exists I, In I output /\ member p I) ->
+  (forall p q, adj edges score mls matching proc p q -> exists I, In I output /\ member p I) ->
   (forall i j I J p, nth_error output i = Some I -> nth_error output j = Some J ->
      member p I -> member p J -> i = j) ->
-  (forall I, In I output ->
-     exists a j0, (a < n_animals)%nat /\ vis a j0 = true /\
-       (forall b j, member (b, j) I <-> b = a /\ vconn edges vis a j0 j) /\
-       (exists j1, j1 <> j0 /\ vconn edges vis a j0 j1))
-  /\
-  (forall a i j, (a < n_animals)%nat -> vedge edges vis a i j ->
-     exists n I, nth_error output n = Some I /\ member (a, i) I /\ member (a, j) I /\
-       forall n' I', nth_error output n' = Some I' -> member (a, i) I' -> n' = n).
+  reassembled edges n_animals vis proc output.
 Proof.
-  intros Hopt Hgeo output H1 H2 H3.
+  intros Hopt Hgeo proc output H1 H2 H3.
   apply (reassembly_from_separation edges n_animals vis score mls matching Hopt); try assumption.
   intros k e Hk. destruct (Hgeo k e Hk) as [r2 [R2 [kappa [P [m [n [G [M3 [[M1 M2]|[Tq [[T1 T2] Hsat]]]]]]]]]]].
   - exact (geo_separated n_animals vis score mls sigma eps seg_of pts dirx diry pen k e r2 R2 kappa P m n G M1 M2 M3).
   - exact (geo_separated_saturated n_animals vis score mls sigma eps seg_of pts dirx diry pen k e r2 R2 kappa P m n G
              Tq T1 T2 M3 Hsat).
+Qed.
+
+(* rooted tree (C17's arborescence): every edge type is processed, the groups are the property's *)
+Theorem reassembly_from_geometry_tree
+    (edges : list (nat * nat)) (r : nat) (n_animals : nat) (vis : nat -> nat -> bool)
+    (score : nat -> nat -> nat -> option Q) (mls : Q) (matching : nat -> list (nat * nat))
+    (sigma eps : R) (seg_of : nat -> nat -> seg) (pts : nat -> nat -> nat -> list (R * R))
+    (dirx diry pen : nat -> nat -> nat -> R) :
+  C17.Lemmas.arborescence edges r ->
+  (forall k e, nth_error edges k = Some e -> all_finite n_animals vis score k e ->
+     optimal (srcs n_animals vis e) (dsts n_animals vis e) (sck score k) (matching k)) ->
+  (forall k e, nth_error edges k = Some e ->
+     geo_premise n_animals vis score mls sigma eps seg_of pts dirx diry pen k e) ->
+  forall output : list instance,
+  (forall I, In I output ->
+     exists p, member p I /\ (forall q, member q I <-> conn edges score mls matching (processed edges) p q) /\
+               (exists q, q <> p /\ member q I)) ->
+  (forall p q, adj edges score mls matching (processed edges) p q -> exists I, In I output /\ member p I) ->
+  (forall i j I J p, nth_error output i = Some I -> nth_error output j = Some J ->
+     member p I -> member p J -> i = j) ->
+  reassembled edges n_animals vis all_edges output.
+Proof.
+  intros Harb Hopt Hgeo output H1 H2 H3.
+  apply (reassembled_all edges n_animals vis (processed edges) output (processed_all edges r Harb)).
+  exact (reassembly_from_geometry edges n_animals vis score mls matching sigma eps seg_of pts dirx diry pen
+           Hopt Hgeo (processed edges) output H1 H2 H3).
 Qed.
 
 
